@@ -108,7 +108,7 @@ def srvObs (ws : List String) : String :=
     let dropFut := kv ws "drop" == some "1"
     let paused := kv ws "paused" == some "1"
     let calls : List ServerCmd.Call := (if paused then [.pause] else []) ++ [.stop g] ++ (match second with | some g2 => [.stop g2] | none => [])
-    let run := ServerCmd.serve workers calls
+    let run := ServerCmd.serve ServerCmd.srcWakeFirst workers calls
     let stopAck := if paused then 1 else 0
     let T := timeout * 1000
     -- per worker: reply time and the lower bound the property gives (all its connections ended, or the timeout)
@@ -132,9 +132,27 @@ def sigObs (ws : List String) : String :=
   let sig : Option Src.Signal := match kv ws "sig" with | some "int" => some .Int | some "term" => some .Term | some "quit" => some .Quit | _ => none
   match sig, (kv ws "hold").bind parseHolds with
   | some sig, some [_] =>
-    let run := ServerCmd.serve 1 [.signal sig]
+    let run := ServerCmd.serve ServerCmd.srcWakeFirst 1 [.signal sig]
     if run.returned then "exit=ok early=0" else "exit=never early=0"
   | _, _ => "bad-op"
+
+def parseEnv (a : String) : Option EnvOp :=
+  match a.splitOn ":" with
+  | ["conn", t] => t.toNat?.map .conn
+  | ["send", t] => t.toNat?.map .send
+  | ["inc"] => some .inc
+  | ["close"] => some .closeChan
+  | ["closestop"] => some .closeStop
+  | ["stop", "g"] => some (.stop true)
+  | ["stop", "f"] => some (.stop false)
+  | ["finish", c] => c.toNat?.map .finish
+  | _ => none
+
+/-- result of an action that ran inside a `poll` (short form) -/
+def showRes : Res → String
+  | .ok => "ok" | .bad => "bad" | .refused => "refused"
+  | .conn id w => s!"c{id}/{bit w}" | .closed w => s!"closed/{bit w}" | .stop k w => s!"s{k}/{bit w}"
+  | .advanced w => s!"adv/{bit w}" | .polled => "polled" | .polledY _ => "polled"
 
 def step (st : State) (line : String) : State × String :=
   let ws := words line
@@ -148,6 +166,9 @@ def step (st : State) (line : String) : State × String :=
     | none => ({ st with started := false }, "bad-case")
   | "srv" :: _ => (st, srvObs ws)
   | "sig" :: _ => (st, sigObs ws)
+  | ["k-shape"] =>
+    -- structural facts read from the source by T1; the harness prints what C06 demands
+    (st, s!"none-arm-polls-stop={bit Src.wkNoneArmPollsStop} run-breaks-on-stopping={bit Src.srRunBreaksOnStopping} stop-sends-eagerly={bit Src.hsStopSendsEagerly} await-guard={Src.hcAwaitGuard}")
   | ["k-worker"] =>
     (st, s!"tick-first={Src.wkTickFirstMs} tick-next={Src.wkTickNextMs} init={Src.wcInit}")
   | ["k-timedout", e, t] => match e.toNat?, t.toNat? with
@@ -168,11 +189,14 @@ def step (st : State) (line : String) : State × String :=
       | ["finish", c] => c.toNat?.map .finish
       | ["advance", ms] => ms.toNat?.bind fun ms => if ms = 0 then none else some (.advance ms)
       | ["poll"] => some (.poll 1000000)
+      | ["closestop"] => some .closeStop
+      | ["poll", y] =>
+        if y.startsWith "y=" then ((((y.drop 2).toString).splitOn ",").mapM parseEnv).map (.pollY 1000000) else none
       | _ => none
     match op with
     | none => (st, "bad-op")
     | some op =>
-      let r := ActixNet.Worker.step st.s op
+      let r := ActixNet.Worker.stepY st.s op
       let st' := { st with s := r.1 }
       match r.2 with
       | .bad => (st, "bad-op")
@@ -183,5 +207,6 @@ def step (st : State) (line : String) : State × String :=
       | .stop k w => (st', s!"ok s{k} woke={bit w} reply={if st.s.finished then "x" else "-"}")
       | .advanced w => (st', s!"ok woke={bit w}")
       | .polled => (st', pollObs st.s st'.s)
+      | .polledY rs => (st', s!"acts=[{",".intercalate (rs.map showRes)}] " ++ pollObs st.s st'.s)
 
 end Driver.Worker
